@@ -1,6 +1,369 @@
 import OnetVerif.Model.C19
-/-! Property C19 — property theorems, negation witnesses, `_partial` variants and non-vacuity
-examples only (helper lemmas that need Mathlib go to OnetVerif/Proofs/). -/
+import OnetVerif.Proofs.C19Field
+import OnetVerif.Proofs.C19Stats
+import Mathlib.Algebra.Order.Field.Rat
+import Mathlib.Algebra.Order.BigOperators.Group.List
+
+set_option linter.unusedSectionVars false
+
+/-! Property C19 — simulation statistics equal the statistics of the recorded measures.
+
+`K` is an arbitrary linearly ordered field (ℚ, ℝ, …) with an arbitrary function `HasSqrt.sq` where
+the Go code calls `math.Sqrt`; measure names `κ` are an arbitrary linear order (Go: strings under
+`sort.Strings`).  Theorems that do not need exact arithmetic are stated for every number type
+`α` with the operations of `Num` — the IEEE instance the driver runs included.  Helper lemmas are
+in `Proofs/C19Field.lean` (accumulators) and `Proofs/C19Stats.lean` (result sets). -/
 namespace C19
+
+section exact
+variable {K : Type} [Field K] [LinearOrder K] [IsStrictOrderedRing K] [HasSqrt K]
+
+/-- **c19_welford**: after `Collect` of a measure that stores `xs` (n ≥ 1 values) the reported
+count is n, the sum is Σxs, the mean is Σxs / n, the carried `newS` is Σ(x − mean)², the deviation
+is `sqrt (newS / (n − 1))` (n ≥ 2; for n = 1 the Go code reports NaN), minimum and maximum are the
+least and the greatest stored value; the store itself is untouched. -/
+theorem c19_welford (t : Value K) (hne : t.store ≠ []) :
+    t.collect.store = t.store ∧
+    t.collect.n = t.store.length ∧
+    t.collect.sum = t.store.sum ∧
+    t.collect.newM = t.store.sum / (t.store.length : K) ∧
+    t.collect.newS = (t.store.map fun x => (x - t.collect.newM) * (x - t.collect.newM)).sum ∧
+    (2 ≤ t.store.length → t.collect.dev = HasSqrt.sq (t.collect.newS / ((t.store.length : K) - 1))) ∧
+    t.collect.min ∈ t.store ∧ (∀ x ∈ t.store, t.collect.min ≤ x) ∧
+    t.collect.max ∈ t.store ∧ (∀ x ∈ t.store, x ≤ t.collect.max) := by
+  have h := inv_collect t
+  have hn := h.n
+  have hl : (t.store.length : K) ≠ 0 := by
+    have : 0 < t.store.length := List.length_pos_iff.mpr hne
+    positivity
+  have hmean : t.collect.newM = t.store.sum / (t.store.length : K) := by
+    have := h.mean; rw [hn] at this; field_simp; linarith
+  refine ⟨collect_store t, hn, h.sum, hmean, ?_, ?_, h.minMem hne, h.minLe, h.maxMem hne, h.maxGe⟩
+  · rw [sum_sq_dev, h.m2, ← h.mean, hn]; ring
+  · intro h2
+    rw [h.dev hne, hn]
+    congr 2
+    have : 1 ≤ t.store.length := by omega
+    push_cast [Nat.cast_sub this]; ring
+
+/-- with a function that really is a square root on the non-negative numbers (ℝ: `Real.sqrt`), the
+square of the reported deviation is the sample variance Σ(x − mean)² / (n − 1) -/
+theorem c19_welford_dev_sq (hsq : ∀ y : K, 0 ≤ y → HasSqrt.sq y * HasSqrt.sq y = y)
+    (t : Value K) (h2 : 2 ≤ t.store.length) :
+    t.collect.dev * t.collect.dev =
+      (t.store.map fun x => (x - t.collect.newM) * (x - t.collect.newM)).sum / ((t.store.length : K) - 1) := by
+  have hne : t.store ≠ [] := by intro e; rw [e] at h2; simp at h2
+  obtain ⟨_, _, _, _, hS, hdev, _⟩ := c19_welford t hne
+  rw [hdev h2, hsq, hS]
+  apply div_nonneg
+  · rw [hS]
+    apply List.sum_nonneg
+    intro y hy
+    obtain ⟨x, _, rfl⟩ := List.mem_map.mp hy
+    exact mul_self_nonneg _
+  · have : (2 : K) ≤ (t.store.length : K) := by exact_mod_cast h2
+    linarith
+
+/-- **arrival order does not matter for one measure**: two stores that are permutations of each
+other are reported with the same count and the same five columns -/
+theorem c19_perm_invariant_value (t u : Value K) (hp : t.store.Perm u.store) :
+    t.collect.n = u.collect.n ∧ t.collect.values = u.collect.values := by
+  by_cases hne : t.store = []
+  · have hu : u.store = [] := by rw [hne] at hp; exact hp.nil_eq.symm
+    rw [collect_congr t u (hne.trans hu.symm)]; exact ⟨rfl, rfl⟩
+  · have hne' : u.store ≠ [] := fun e => hne (by rw [e] at hp; exact hp.eq_nil)
+    have a := inv_collect t
+    have b := inv_collect u
+    have hlen : t.store.length = u.store.length := hp.length_eq
+    have hn : t.collect.n = u.collect.n := by rw [a.n, b.n, hlen]
+    have hsum : t.collect.sum = u.collect.sum := by rw [a.sum, b.sum, hp.sum_eq]
+    have hnz : (u.collect.n : K) ≠ 0 := by
+      have : 0 < u.collect.n := by rw [b.n]; exact List.length_pos_iff.mpr hne'
+      positivity
+    have hM : t.collect.newM = u.collect.newM := by
+      have h1 := a.mean; have h2 := b.mean
+      rw [hn, hp.sum_eq] at h1
+      exact mul_left_cancel₀ hnz (h1.trans h2.symm)
+    have hS : t.collect.newS = u.collect.newS := by
+      rw [a.m2, b.m2, hn, hM]
+      congr 1
+      exact (hp.map _).sum_eq
+    have hdev : t.collect.dev = u.collect.dev := by rw [a.dev hne, b.dev hne', hS, hn]
+    have hmin : t.collect.min = u.collect.min :=
+      le_antisymm (a.minLe _ (hp.mem_iff.mpr (b.minMem hne'))) (b.minLe _ (hp.mem_iff.mp (a.minMem hne)))
+    have hmax : t.collect.max = u.collect.max :=
+      le_antisymm (b.maxGe _ (hp.mem_iff.mp (a.maxMem hne))) (a.maxGe _ (hp.mem_iff.mpr (b.maxMem hne')))
+    exact ⟨hn, by simp [Value.values, hmin, hmax, hM, hsum, hdev]⟩
+
+variable {κ : Type} [LinearOrder κ]
+
+/-- what a write-out reports for a result set: per measure, in key order, its name, count and
+five columns (min, max, avg, sum, dev), computed by `Collect` -/
+def Stats.report (s : Stats κ K) : List (κ × Nat × List K) :=
+  s.collect.vals.map fun kv => (kv.1, kv.2.n, kv.2.values)
+
+private theorem report_eq (s : Stats κ K) (h : SortedKeys s.vals) :
+    s.report = s.keys.map fun k =>
+      (k, ({ (Value.new : Value K) with store := s.storeAt k }).collect.n,
+          ({ (Value.new : Value K) with store := s.storeAt k }).collect.values) := by
+  simp only [Stats.report, Stats.collect, Stats.keys, keysOf, List.map_map]
+  apply List.map_congr_left
+  intro kv hkv
+  have hst := lookup_of_mem s.vals h kv hkv
+  have : kv.2.collect = ({ (Value.new : Value K) with store := s.storeAt kv.1 }).collect :=
+    collect_congr _ _ (by simp [Stats.storeAt, hst])
+  simp [Function.comp, this]
+
+/-- **c19_perm_invariant**: the report of a result set does not depend on the order in which the
+measures arrived: two arrival sequences that are permutations of each other (whatever names,
+values and hosts they mix) give the same keys in the same order with the same statistics. -/
+theorem c19_perm_invariant (s : Stats κ K) (h : SortedKeys s.vals) (ms₁ ms₂ : List (κ × K))
+    (hp : ms₁.Perm ms₂) : (s.updates ms₁).report = (s.updates ms₂).report := by
+  have h1 := sorted_updates s ms₁ h
+  have h2 := sorted_updates s ms₂ h
+  rw [report_eq _ h1, report_eq _ h2]
+  have hk : (s.updates ms₁).keys = (s.updates ms₂).keys := by
+    apply sorted_ext _ _ h1 h2
+    intro k
+    have e1 := mem_keys_updates s ms₁ k
+    have e2 := mem_keys_updates s ms₂ k
+    simp only [Stats.keys] at e1 e2
+    rw [e1, e2, (hp.map _).mem_iff]
+  rw [hk]
+  apply List.map_congr_left
+  intro k _
+  have hst : ((s.updates ms₁).storeAt k).Perm ((s.updates ms₂).storeAt k) := by
+    rw [storeAt_updates s ms₁ h, storeAt_updates s ms₂ h]
+    exact List.Perm.append_left _ ((hp.filter _).map _)
+  have := c19_perm_invariant_value
+    ({ (Value.new : Value K) with store := (s.updates ms₁).storeAt k })
+    ({ (Value.new : Value K) with store := (s.updates ms₂).storeAt k }) hst
+  rw [this.1, this.2]
+
+/-- `Interleave parts out`: `out` is an arrival order of the measures that the reporting
+connections sent, connection i having sent `parts[i]` in that order -/
+inductive Interleave {μ : Type} : List (List μ) → List μ → Prop
+  | done (parts : List (List μ)) (h : ∀ p ∈ parts, p = []) : Interleave parts []
+  | step (pre post : List (List μ)) (x : μ) (rest out : List μ) :
+      Interleave (pre ++ rest :: post) out → Interleave (pre ++ (x :: rest) :: post) (x :: out)
+
+theorem interleave_perm {μ : Type} (parts : List (List μ)) (out : List μ) (h : Interleave parts out) :
+    out.Perm parts.flatten := by
+  induction h with
+  | done parts h =>
+    have : parts.flatten = [] := by
+      simp only [List.flatten_eq_nil_iff]; exact h
+    rw [this]
+  | step pre post x rest out _ ih =>
+    simp only [List.flatten_append, List.flatten_cons] at ih ⊢
+    refine (List.Perm.cons x ih).trans ?_
+    exact (List.perm_middle (a := x) (l₁ := pre.flatten) (l₂ := rest ++ post.flatten)).symm
+
+/-- **the partition over reporting connections does not matter**: however the measures were
+spread over connections and however the monitor interleaved them, the report is that of the
+connections' measures taken one connection after the other -/
+theorem c19_partition_invariant (s : Stats κ K) (h : SortedKeys s.vals) (parts : List (List (κ × K)))
+    (out : List (κ × K)) (hi : Interleave parts out) :
+    (s.updates out).report = (s.updates parts.flatten).report :=
+  c19_perm_invariant s h out parts.flatten (interleave_perm parts out hi)
+
+end exact
+
+section anynumber
+variable {α κ : Type} [Num α] [KeyOrd κ] [DecidableEq κ]
+
+/-- **c19_readout_idempotent** (any number type, IEEE doubles included): after any sequence of
+read-outs — print, collect, write header, write values, in any number and order — the final write
+leaves the result set in exactly the state a single write would have left it in (so it writes the
+same line and every accessor returns the same number); and once collected, further read-outs change
+nothing at all. -/
+theorem c19_readout_idempotent (s : Stats κ α) (rs : List Readout) :
+    (s.readouts rs).readout .values = s.readout .values ∧
+    (s.readout .values).readouts rs = s.readout .values := by
+  constructor
+  · show (s.readouts rs).collect = s.collect
+    exact collect_readouts s rs
+  · show s.collect.readouts rs = s.collect
+    exact readouts_of_collected s rs
+
+/-- reading a bucket (`BucketStats.Get`) is a `Collect` of that bucket and nothing else -/
+theorem c19_bucket_get (bs : BucketStats κ α) (i : Int) :
+    (bs.get i).1 = bs.map (fun b => if b.idx = i then { b with stats := b.stats.readout .collect } else b) := rfl
+
+/-- **c19_buckets_exact**: after any arrival sequence every bucket has been updated with exactly
+the measures whose host index is non-negative and lies in one of the bucket's ranges
+(`low ≤ host < high`), in arrival order — nothing else, nothing twice; index, rules and the other
+buckets are untouched. -/
+theorem c19_buckets_exact (bs : BucketStats κ α) (ms : List (Measure κ α)) :
+    bs.feed ms = bs.map (fun b =>
+      { b with stats := b.stats.feed (ms.filter fun m => rulesMatch b.rules m.host) }) ∧
+    ∀ (rr : List Rule) (h : Int),
+      rulesMatch rr h = true ↔ 0 ≤ h ∧ ∃ r ∈ rr, r.low ≤ h ∧ h < r.high :=
+  ⟨buckets_feed bs ms, rulesMatch_iff⟩
+
+/-- the monitor hands every measure to the global result set and to the buckets -/
+theorem c19_monitor_feed (m : Monitor κ α) (ms : List (Measure κ α)) :
+    ms.foldl Monitor.update m = { global := m.global.feed ms, buckets := m.buckets.feed ms } := by
+  induction ms generalizing m with
+  | nil => rfl
+  | cons x ms ih =>
+    simp only [List.foldl_cons, ih, Monitor.update, Stats.feed, BucketStats.feed]
+
+end anynumber
+
+section exact2
+variable {K : Type} [Field K] [LinearOrder K] [IsStrictOrderedRing K] [HasSqrt K] {κ : Type} [LinearOrder κ]
+
+private theorem feed_eq_updates (s : Stats κ K) (ms : List (Measure κ K)) :
+    s.feed ms = s.updates (ms.map fun m => (m.name, m.val)) := by
+  simp [Stats.feed, Stats.updates, List.foldl_map]
+
+/-- the same for a whole monitor: the global result set and every bucket report the same whatever
+the arrival order of the measures -/
+theorem c19_perm_invariant_monitor (m : Monitor κ K) (hg : SortedKeys m.global.vals)
+    (hb : ∀ b ∈ m.buckets, SortedKeys b.stats.vals) (ms₁ ms₂ : List (Measure κ K)) (hp : ms₁.Perm ms₂) :
+    (ms₁.foldl Monitor.update m).global.report = (ms₂.foldl Monitor.update m).global.report ∧
+    (ms₁.foldl Monitor.update m).buckets.map (fun b => (b.idx, b.rules, b.stats.report)) =
+      (ms₂.foldl Monitor.update m).buckets.map (fun b => (b.idx, b.rules, b.stats.report)) := by
+  rw [c19_monitor_feed, c19_monitor_feed]
+  constructor
+  · simp only [feed_eq_updates]
+    exact c19_perm_invariant _ hg _ _ (hp.map _)
+  · simp only [buckets_feed, List.map_map]
+    apply List.map_congr_left
+    intro b hbm
+    simp only [Function.comp, feed_eq_updates]
+    rw [c19_perm_invariant _ (hb b hbm) _ _ ((hp.filter _).map _)]
+
+end exact2
+
+section average
+variable {α κ : Type} [Num α] [LinearOrder κ]
+
+private theorem lookup_map (l : List (κ × Value α)) (f : κ → Value α) (k : κ) :
+    lookupStore (l.map fun kv => (kv.1, f kv.1)) k = if k ∈ keysOf l then (f k).store else [] := by
+  induction l with
+  | nil => rfl
+  | cons a l ih =>
+    obtain ⟨c, v⟩ := a
+    simp only [List.map_cons, lookup_cons, keysOf, List.mem_cons] at ih ⊢
+    by_cases h : c = k
+    · subst h; simp
+    · have h' : ¬ k = c := fun e => h e.symm
+      simp only [h, h', if_false, false_or]
+      exact ih
+
+private theorem stores_flatten (ss : List (Stats κ α)) (k : κ) :
+    (ss.filterMap (·.value k)).flatMap (·.store) = (ss.map (·.storeAt k)).flatten := by
+  induction ss with
+  | nil => rfl
+  | cons s ss ih =>
+    have hv : s.value k = (s.vals.find? (·.1 = k)).map (·.2) := rfl
+    have hs : s.storeAt k = ((s.vals.find? (·.1 = k)).map (·.2.store)).getD [] := by
+      unfold Stats.storeAt lookupStore; cases s.vals.find? (·.1 = k) <;> rfl
+    rw [List.filterMap_cons, List.map_cons, List.flatten_cons, hs, hv]
+    cases s.vals.find? (·.1 = k) with
+    | none => simpa using ih
+    | some kv => simp [List.flatMap_cons, ih]
+
+/-- **c19_average_union**: the average of result sets `s0 :: rest` has the static fields and the
+measures of `s0`, and each measure stores the union (concatenation, in the order of the result
+sets) of what the result sets stored for it — a result set that lacks the measure contributes
+nothing.  Its read-out is therefore the statistics of the union (`c19_welford`). -/
+theorem c19_average_union (s0 : Stats κ α) (rest : List (Stats κ α)) :
+    (averageStats (s0 :: rest)).static = s0.static ∧
+    (averageStats (s0 :: rest)).keys = s0.keys ∧
+    ∀ k ∈ s0.keys, (averageStats (s0 :: rest)).storeAt k = ((s0 :: rest).map (·.storeAt k)).flatten := by
+  refine ⟨rfl, ?_, ?_⟩
+  · simp [averageStats, Stats.keys, keysOf, Function.comp]
+  · intro k hk
+    have := lookup_map s0.vals (fun k => averageValue ((s0 :: rest).filterMap (·.value k))) k
+    simp only [Stats.storeAt, averageStats]
+    rw [this, if_pos (show k ∈ keysOf s0.vals from hk)]
+    simp only [averageValue]
+    exact stores_flatten (s0 :: rest) k
+
+end average
+
+section unrepaired
+/-! ### The code before the `fix:` commit (kept as the negation witnesses of the full statement)
+
+`Value.Collect` used to clear only `sum`: count, mean and M2 were carried over from the previous
+read-out, and the maximum started from 0. -/
+variable {α : Type} [Num α]
+
+/-- the loop body before the repair: `max` is only ever raised -/
+def Value.stepLegacy (t : Value α) (x : α) : Value α :=
+  { t.step x with max := if Num.lt t.max x then x else t.max }
+
+/-- `Collect` before the repair: only `sum` is cleared -/
+def Value.collectLegacy (t : Value α) : Value α :=
+  t.store.foldl Value.stepLegacy { t with sum := zero }
+
+private theorem legacy_fold (xs : List α) (t : Value α) :
+    (xs.foldl Value.stepLegacy t).n = t.n + xs.length ∧ (xs.foldl Value.stepLegacy t).store = t.store := by
+  induction xs generalizing t with
+  | nil => simp
+  | cons x xs ih =>
+    simp only [List.foldl_cons, List.length_cons]
+    have h1 : (t.stepLegacy x).n = t.n + 1 := by
+      simp only [Value.stepLegacy, Value.step]; split <;> rfl
+    have h2 : (t.stepLegacy x).store = t.store := by
+      simp only [Value.stepLegacy, Value.step]; split <;> rfl
+    rw [(ih _).1, (ih _).2, h1, h2]
+    exact ⟨by omega, rfl⟩
+
+/-- the full statement failed on the unrepaired code: a second read-out reported twice the number
+of recorded values (and a third one three times, …) -/
+theorem c19_legacy_second_readout_doubles (t : Value α) (h : t.n = 0) :
+    t.collectLegacy.n = t.store.length ∧ t.collectLegacy.collectLegacy.n = 2 * t.store.length := by
+  have key : ∀ u : Value α, u.collectLegacy.n = u.n + u.store.length ∧ u.collectLegacy.store = u.store :=
+    fun u => legacy_fold u.store { u with sum := zero }
+  have a := key t
+  have b := key t.collectLegacy
+  constructor
+  · rw [a.1, h]; omega
+  · rw [b.1, a.1, a.2, h]; omega
+
+/-- … and an all-negative store was reported with maximum 0, which is none of the recorded values -/
+theorem c19_legacy_max_not_recorded {K : Type} [Field K] [LinearOrder K] [IsStrictOrderedRing K] [HasSqrt K]
+    (t : Value K) (h0 : 0 ≤ t.max) : 0 ≤ t.collectLegacy.max := by
+  have : ∀ (xs : List K) (u : Value K), 0 ≤ u.max → 0 ≤ (xs.foldl Value.stepLegacy u).max := by
+    intro xs
+    induction xs with
+    | nil => intro u h; exact h
+    | cons x xs ih =>
+      intro u h
+      simp only [List.foldl_cons]
+      apply ih
+      simp only [Value.stepLegacy, num_lt, decide_eq_true_eq]
+      split
+      · next hlt => exact le_of_lt (lt_of_le_of_lt h hlt)
+      · exact h
+  exact this _ _ h0
+
+end unrepaired
+
+/-! ### Non-vacuity -/
+
+instance : HasSqrt ℚ := ⟨id⟩
+
+example : ∃ t : Value ℚ, t.store ≠ [] ∧ 2 ≤ t.store.length :=
+  ⟨{ (Value.new : Value ℚ) with store := [1, 2, 4] }, by simp, by simp⟩
+
+example : ([(2, (1 : ℚ)), (1, 5), (2, 3)] : List (ℕ × ℚ)).Perm [(1, 5), (2, 3), (2, 1)] ∧
+    SortedKeys (({} : Stats ℕ ℚ).vals) := by
+  constructor
+  · decide
+  · simp [SortedKeys, keysOf]
+
+example : Interleave [[(1 : ℕ), 2], [3]] [1, 3, 2] := by
+  have h0 : Interleave [([] : List ℕ), []] [] := .done _ (by simp)
+  have h1 : Interleave [[(2 : ℕ)], []] [2] := .step [] [[]] 2 [] [] h0
+  have h2 : Interleave [[(2 : ℕ)], [3]] [3, 2] := .step [[2]] [] 3 [] [2] h1
+  exact .step [] [[3]] 1 [2] [3, 2] h2
+
+example : rulesMatch [{ low := 2, high := 5 }] 4 = true ∧ rulesMatch [{ low := 2, high := 5 }] 5 = false ∧
+    rulesMatch [{ low := -3, high := 5 }] (-1) = false := by decide
 
 end C19
